@@ -28,14 +28,20 @@ class Input(symval.Node):
             if not f.init:
                 continue
             key = oracle.field_alias(T, n, ft, f) or n
-            flag = ctx.new("p", "bool")
+            if len(bad) > 1 and n not in bad:
+                flag = None  # pairs: the other fields are always present (their absence is covered by the singles)
+            else:
+                flag = ctx.new("p", "bool")
             if n in bad:
-                node = arb.Child(ctx, strs[:6])
+                node = arb.Child(ctx, strs[:6] if len(bad) < 2 else strs[:2])
                 self.fields.append((n, key, flag, "arb", node, ft))
             else:
+                start = len(ctx.vars)
                 node = symval.plan(ft, ctx)
+                if len(bad) > 1:
+                    ctx.pin_from(start)
                 self.fields.append((n, key, flag, "valid", node, ft))
-        self.strangers = [(s, ctx.new("p", "bool"), symval.Const(1)) for s in strangers]
+        self.strangers = [(s, ctx.new("p", "bool"), symval.Const(1)) for s in strangers] if len(bad) < 2 else []
 
     def make(self, env):
         r = pick(env[self.root], len(NON_DICTS) + 1)
@@ -43,7 +49,7 @@ class Input(symval.Node):
             return NON_DICTS[r - 1]
         d = {}
         for n, key, flag, mode, node, ft in self.fields:
-            if env[flag]:
+            if flag is None or env[flag]:
                 v = node.make(env)
                 d[key] = v if mode == "arb" else oracle.ref_encode(ft, v)
         for s, flag, node in self.strangers:
@@ -125,7 +131,7 @@ def twin(S, env):
     if not isinstance(d, dict):
         return True
     for n, key, flag, mode, node, ft in S.node.fields:
-        if not env[flag]:
+        if flag is not None and not env[flag]:
             return True
     st_r, r = call(S.decode, d)
     return not main(S, env)
